@@ -273,11 +273,12 @@ int main(int argc, char** argv) {
     long which = atol(argv[a + 1]); /* 0: all, 1: deep nests only, 2: big payloads only, 3: big payloads up to 4 KiB */
     for (int d = CBOR_MAX_STACK_SIZE - 1; d <= CBOR_MAX_STACK_SIZE && which != 2 && which != 3; d++)
       for (int oi = 0; oi < 7; oi++)
-        for (int inner = 0; inner < 2; inner++) {
+        for (int inner = 0; inner < 4; inner++) {
           if (d < 1) continue;
           size_t n = 0;
           for (int k = 0; k < d; k++) { memcpy(big + n, openers[oi] + 1, openers[oi][0]); n += openers[oi][0]; }
-          if (inner == 0) big[n++] = 0x00; else { memcpy(big + n, "\x5f\x41\x61\x40\xff", 5); n += 5; }
+          if (inner == 0) big[n++] = 0x00; else if (inner == 1) { memcpy(big + n, "\x5f\x41\x61\x40\xff", 5); n += 5; }
+          else big[n++] = inner == 2 ? 0x80 : 0xa0; /* an empty container opens no further level: legal under exactly L open ones */
           if (oi == 5) for (int k = 0; k < d; k++) big[n++] = 0x00;       /* a1 with the container in key position: values follow */
           if (oi == 1) for (int k = 0; k < d; k++) big[n++] = 0xff;
           if (oi == 4) for (int k = 0; k < d; k++) big[n++] = 0xff;
